@@ -1131,7 +1131,7 @@ def to_trace(case, result):
         ord_ = todo[len(prev_todo):] if len(todo) >= len(prev_todo) and todo[:len(prev_todo)] == prev_todo else []
         prev_todo = todo
         out.append({"t": t, "k": k, "a": a, "h": h, "to": to, "w": sorted(w), "sp": sp, "ord": ord_, "bl": bl,
-                    "st": {x: st[x] for x in ("sched", "todoImg", "hasL", "descL", "hasS", "descS", "redir", "seml", "sems", "hsem", "dp")}})
+                    "st": {x: st[x] for x in ("sched", "todoImg", "todoRev", "todoPg", "hasL", "descL", "hasS", "descS", "redir", "seml", "sems", "hsem", "dp")}})
     view = None
     if result.get("final"):
         f = result["final"]
